@@ -642,3 +642,54 @@ func c04Undecodable(x *X) {
 func init() {
 	register(&Scenario{Prop: "C04", Name: "c04/undecodable-requests", Quick: []Bound{{0, 0}}, Thorough: []Bound{{1, 0}}, Body: c04Undecodable, BudgetQ: 15, BudgetT: 100, MinHB: 1})
 }
+
+// arguments that encode to no bytes at all (an empty BYTES value) between ordinary requests, in
+// every server mode: the handler is invoked once with exactly that - zero bytes, not whatever a
+// recycled buffer held - and the reply is the reply to it.
+func c04EmptyArgs(x *X) {
+	mode := x.Choose(5)
+	so := srvOpts{bufSize: 64}
+	switch mode {
+	case 1:
+		so.pipelining = true
+	case 2:
+		so.directIO = true
+	case 3:
+		so.shared = true
+	case 4:
+		so.bufSize = 0 // the default buffer size
+	}
+	pattern := x.Choose(3)
+	f := newFixture(so, cliOpts{bufSize: 64})
+	var want []string
+	for i := 0; i < 6; i++ {
+		empty := []bool{i%2 == 1, i == 0 || i == 5, i >= 2}[pattern]
+		var args []byte
+		if !empty {
+			args = mkPayload(byte(0x20+i), 0, 9+7*i)
+		} else {
+			args = []byte{}
+		}
+		var reply []byte
+		err := f.conn.Call("Svc.Plain", &args, &reply)
+		want = append(want, fmt.Sprintf("%d:%x", len(args), clipBytes(args, 16)))
+		if err != nil {
+			x.Fail("C04/call-failed/empty-arguments", "call %d (%d argument bytes, server mode %d) failed: %v", i, len(args), mode, err)
+			break
+		}
+		if len(reply) != len(args) {
+			x.Fail("C04/reply-differs/empty-arguments", "call %d was sent with %d argument bytes and answered with %d reply bytes (the handler returns as many bytes as it is given)", i, len(args), len(reply))
+			break
+		}
+	}
+	if fmt.Sprint(f.w.plainSeen) != fmt.Sprint(want[:len(f.w.plainSeen)]) || len(f.w.plainSeen) != len(want) {
+		x.Fail("C04/arguments-differ/empty-arguments", "the client sent requests with (length:first bytes) %v, the handler was invoked with %v (server mode %d)", want, f.w.plainSeen, mode)
+	}
+	x.Outcome("mode=%d pattern=%d n=%d", mode, pattern, len(f.w.plainSeen))
+	f.conn.Close()
+	vs.Quiesce()
+}
+
+func init() {
+	register(&Scenario{Prop: "C04", Name: "c04/empty-arguments", Quick: []Bound{{0, 0}, {1, 0}}, Thorough: []Bound{{2, 0}}, Body: c04EmptyArgs, BudgetQ: 15, MinHB: 1})
+}
